@@ -100,8 +100,15 @@ def run(ctx: common.Ctx) -> None:
     with common.workdir("C02") as wd:
         env = common.base_env(VERIF_POOL_ROOT=wd)
         with Pool(env=env) as pool:
-            tasks = itertools.chain(gen(ctx, n_hist - n_hist // 3, steps, all_configs=not quick), gen_corpus(ctx, n_corpus),
-                                    gen(ctx, n_hist // 3, steps, all_configs=False, explore=True))
+            only = os.environ.get("VERIF_ONLY")   # triage aid: "explore" or "core"
+            streams = []
+            if only != "explore":
+                streams += [gen(ctx, n_hist - n_hist // 3, steps, all_configs=not quick), gen_corpus(ctx, n_corpus)]
+            if only != "core":
+                streams += [gen(ctx, n_hist // 3, steps, all_configs=False, explore=True)]
+            if only:
+                ctx.floor_nontrivial, ctx.floor_evaluations = 2, 2
+            tasks = itertools.chain(*streams)
             for t, r in pool.imap(tasks, timeout=900):
                 if not r.get("ok"):
                     ctx.inconc("runner:" + ("timeout" if r.get("timeout") else "died" if r.get("died") else str(r.get("exc"))[:60]))
